@@ -7,7 +7,7 @@
   mirror), each next to the statement that the repaired writer delivers the same call intact.
 -/
 import GoImap.Spec.CmdGrammar
-import GoImap.Lemmas.CmdGrammarStatus
+import GoImap.Lemmas.CmdGrammarListCmd
 namespace GoImap.C02
 open GoImap.CmdGrammar GoImap.CmdSpec GoImap.CmdLemmas
 
@@ -87,6 +87,12 @@ theorem cmd_fidelity_rename (cfg : Cfg) (tag : Nat) (m n : List Nat) (hm : Mailb
     roundTrip {} cfg tag (.rename m n) = .calls (sem cfg (.rename m n)) :=
   rename_fidelity cfg tag m n hm hn
 
+/-- CREATE with special-use attributes -/
+theorem cmd_fidelity_create (cfg : Cfg) (tag : Nat) (m : List Nat) (use : List Str) (hm : MailboxOK m)
+    (hu : ∀ f ∈ use, AttrOK f) :
+    roundTrip {} cfg tag (.create m use) = .calls (sem cfg (.create m use)) :=
+  create_fidelity cfg tag m use hm hu
+
 /-- non-vacuity: "Entwürfe/R&D" (non-ASCII and an ampersand) and the INBOX spelled "iNbOx" -/
 example : MailboxOK [69, 110, 116, 119, 252, 114, 102, 101, 47, 82, 38, 68] ∧ MailboxOK [105, 78, 98, 79, 120] :=
   ⟨⟨by decide, by decide⟩, ⟨by decide, by decide⟩⟩
@@ -116,6 +122,13 @@ theorem cmd_fidelity_move (cfg : Cfg) (tag : Nat) (uid : Bool) (s : NSet) (m : L
     roundTrip {} cfg tag (.move uid s m) = .calls (sem cfg (.move uid s m)) :=
   move_fidelity cfg tag uid s m hs hnf hm hmove
 
+/-- MOVE to a server without the MOVE capability: the client sends COPY, STORE +FLAGS.SILENT (\Deleted) and
+    EXPUNGE (UID EXPUNGE of the same set when UIDPLUS is there); the session receives exactly these three calls -/
+theorem cmd_fidelity_move_emulated (cfg : Cfg) (tag : Nat) (uid : Bool) (s : NSet) (m : List Nat)
+    (hs : SetOK s) (hnf : SetNF s) (hm : MailboxOK m) (hmove : cfg.hasMove = false) :
+    roundTrip {} cfg tag (.move uid s m) = .calls (sem cfg (.move uid s m)) :=
+  move_fallback_fidelity cfg tag uid s m hs hnf hm hmove
+
 theorem cmd_fidelity_expunge (cfg : Cfg) (tag : Nat) :
     roundTrip {} cfg tag (.expunge none) = .calls (sem cfg (.expunge none)) :=
   expunge_fidelity cfg tag
@@ -136,5 +149,31 @@ theorem cmd_fidelity_status_any_order (cfg : Cfg) (tag : Nat) (m : List Nat) (o 
     parseCmds cfg [statusWire tag m l] = .ok (sem cfg (.status m o)) := by
   simp only [parseCmds, bind, Except.bind, parse_status cfg tag m o hm ho l hp]
   simp [sem, semRaw, canon, pure, Except.pure]
+
+
+/-- LIST: selection options, reference, pattern, return options incl. RETURN (STATUS (…)) — for the options
+    the server implements (`ListOK`) -/
+theorem cmd_fidelity_list (cfg : Cfg) (tag : Nat) (ref pat : List Nat) (o : ListOpts)
+    (hr : MailboxOK ref) (hp : MailboxOK pat) (ho : ListOK o) :
+    roundTrip {} cfg tag (.list ref [pat] o) = .calls (sem cfg (.list ref [pat] o)) :=
+  list_fidelity cfg tag ref pat o hr hp ho
+
+/-- non-vacuity: every implemented option at once, with a STATUS item list -/
+example : ListOK { selSubscribed := true, selRemote := true, selRecursive := true, retSubscribed := true, retChildren := true,
+                   retStatus := some { messages := true, unseen := true, size := true } } :=
+  ⟨rfl, rfl, fun _ => rfl, fun st h => by cases h; rfl⟩
+
+/-- the APPEND header — mailbox, flag list, date-time — and the literal: the session receives the canonical
+    mailbox name and flags, the very date-time and the payload … -/
+theorem cmd_fidelity_append (cfg : Cfg) (tag : Nat) (m : List Nat) (flags : List Str) (time : Option ATime) (payload : Str)
+    (hm : MailboxOK m) (hf : ∀ f ∈ flags, FlagOK f) (ht : TimeOK time) :
+    roundTrip {} cfg tag (.append m flags time payload) =
+      .calls [.append (canonMailbox m) (flags.map canonFlag) time payload] :=
+  append_fidelity cfg tag m flags time payload hm hf ht
+
+/-- … which is the specification's meaning of the call -/
+theorem cmd_fidelity_append_sem (cfg : Cfg) (m : List Nat) (flags : List Str) (time : Option ATime) (payload : Str) :
+    [Cmd.append (canonMailbox m) (flags.map canonFlag) time payload].map canon = sem cfg (.append m flags time payload) :=
+  append_sem cfg m flags time payload
 
 end GoImap.C02
